@@ -315,10 +315,12 @@ type Decls struct {
 	funSet map[string]bool
 	axioms []string
 	strLits map[string]bool // string literals seen in code and contracts of this unit
+	entryHeaps map[string]string // heap array name -> entry-state constant
+	isRef map[string]bool
 }
 
 func newDecls() *Decls {
-	return &Decls{set: map[string]string{}, funSet: map[string]bool{}, strLits: map[string]bool{}}
+	return &Decls{set: map[string]string{}, funSet: map[string]bool{}, strLits: map[string]bool{}, entryHeaps: map[string]string{}}
 }
 
 func (d *Decls) constant(name, sort string) string {
@@ -352,6 +354,28 @@ func (d *Decls) axiom(t string) {
 	}
 	d.funSet[a] = true
 	d.axioms = append(d.axioms, a)
+}
+
+// heapAxioms: well-formed entry heap -- every reference stored in an object field points to an existing object.
+func (d *Decls) heapAxioms() string {
+	var b strings.Builder
+	var names []string
+	for n := range d.entryHeaps {
+		names = append(names, n)
+	}
+	sort.Strings(names)
+	for _, n := range names {
+		if d.isRef != nil && d.isRef[n] {
+			c := d.entryHeaps[n]
+			b.WriteString(fmt.Sprintf("(assert (forall ((r Int)) (! (<= (select %s r) |wm@0|) :pattern ((select %s r)))))\n", c, c))
+		}
+		if d.isRef != nil && d.isRef["neg:"+n] {
+			// identities of xsync.Map values embedded in structs live below zero
+			c := d.entryHeaps[n]
+			b.WriteString(fmt.Sprintf("(assert (forall ((r Int)) (! (< (select %s r) 0) :pattern ((select %s r)))))\n", c, c))
+		}
+	}
+	return b.String()
 }
 
 // litAxioms: the uninterpreted string functions agree with govc's own evaluation on every literal of the unit.
@@ -473,6 +497,9 @@ func (d *Decls) errAxioms() string {
 	var b strings.Builder
 	_, hasWraps := d.set["errwraps"]
 	if !hasWraps {
+		if _, hasIs0 := d.set["fn!errors.Is"]; hasIs0 {
+			return "(assert (forall ((e Int)) (! (fn!errors.Is e e) :pattern ((fn!errors.Is e e)))))\n"
+		}
 		return ""
 	}
 	var errs []string
@@ -491,6 +518,9 @@ func (d *Decls) errAxioms() string {
 	}
 	sort.Strings(asFns)
 	_, hasIs := d.set["fn!errors.Is"]
+	if hasIs {
+		b.WriteString("(assert (forall ((e Int)) (! (fn!errors.Is e e) :pattern ((fn!errors.Is e e)))))\n")
+	}
 	for _, e := range errs {
 		if hasIs {
 			b.WriteString(fmt.Sprintf("(assert (forall ((t Int)) (! (= (fn!errors.Is %s t) (or (= %s t) (and (distinct (errwraps %s) 0) (fn!errors.Is (errwraps %s) t)))) :pattern ((fn!errors.Is %s t)))))\n", e, e, e, e, e))
